@@ -283,7 +283,8 @@ class Orchestrator:  # thailint: ignore[srp]
             List of violations found in the file.
         """
         # Fast path: skip compiled files and common excluded directories
-        if _is_hardcoded_excluded(file_path):
+        # (decided by the path inside the project, not by where the project lives)
+        if _is_hardcoded_excluded(self._path_in_project(file_path)):
             return []
 
         if self.ignore_parser.is_ignored(file_path):
@@ -297,6 +298,13 @@ class Orchestrator:  # thailint: ignore[srp]
         context = FileLintContext(file_path, language, metadata=metadata)
 
         return self._execute_rules(rules, context)
+
+    def _path_in_project(self, file_path: Path) -> Path:
+        """Return file_path relative to the project root when it lies inside it."""
+        try:
+            return file_path.resolve().relative_to(self.project_root.resolve())
+        except (ValueError, OSError):
+            return file_path
 
     def lint_files(self, file_paths: list[Path]) -> list[Violation]:
         """Lint multiple files.
